@@ -19,6 +19,16 @@ P = {
          "Trusted: Lean kernel + propext/Classical.choice/Quot.sound; the hand-written model and the correspondence harness; "
          "wrap_phase (x % 2pi) treated as an oracle; float |diff| > step compared with exact arithmetic (near-ties skipped and counted).",
          "Lean 4 proof over hand-written model + differential correspondence with the implementation", "5 C12"),
+ 'C13': (True,
+         "Lean 4 theorems over the same model: the acceptance test is exactly the conjunction of the documented criteria (non-empty, "
+         "strictly increasing, start within edge above 0, end within edge below 2pi); with at least one wrap a segment is labelled iff it "
+         "passes the criteria and no sample is masked (soundness and completeness); the partition does not depend on which cycles are "
+         "requested and good labels are the rank among accepted segments (order-preserving renumbering); the container's is_good flag "
+         "agrees with good-cycle detection. Correspondence: exhaustive alphabet sequences x 4 edge values x single-sample masks, random "
+         "phases x random/block masks, direct is_good calls, Cycles(...).metrics['is_good']; instance check re-evaluates the criteria per segment.",
+         "Trusted: Lean kernel + standard axioms; model + harness; the float constant 2*pi - phase_edge is computed by the harness "
+         "with the documented expression and passed to the model exactly; masks are boolean arrays.",
+         "Lean 4 proof over hand-written model + differential correspondence with the implementation", "5 C13"),
 }
 ALL = ['C%02d' % i for i in range(1, 21)]
 
